@@ -114,10 +114,9 @@ def default_order(spec):
     return sorted(names, key=lambda n: RANK[spec["objs"][n]["cls"]])  # stable: insertion order within a rank
 
 
-def construct(name, entry, objs):
-    """Create one object through its public constructor (``from_defaults`` for omitted parameters)."""
+def kwargs_for(entry, objs):
+    """Constructor keyword arguments (without name) for a spec entry."""
     cls_name = entry["cls"]
-    cls = CLASSES[cls_name]
     meta = META[cls_name]
     kw = {}
     for a in quantity_inputs(cls_name):
@@ -133,15 +132,27 @@ def construct(name, entry, objs):
     for a in meta["lists"]:
         kw[a] = [objs[t] for t in entry[a]]
     if cls_name == "Country":
-        return Country(name, entry.get("short_name", name.upper()),
-                       Q(entry.get("average_carbon_intensity", [85.0, "g/kWh"])),
-                       SourceObject(pytz.timezone(entry["timezone"])))
+        kw["short_name"] = entry.get("short_name", "XX")
+        kw.setdefault("average_carbon_intensity", Q([85.0, "g/kWh"]))
+        kw["timezone"] = SourceObject(pytz.timezone(entry["timezone"]))
     if cls_name == "UsagePattern":
-        return UsagePattern(name, kw["usage_journey"], kw["devices"], kw["network"], kw["country"],
-                            hourly(entry["start"], entry["starts"]))
-    if cls_name == "UsageJourney":
-        return UsageJourney(name, kw["uj_steps"])
+        kw["hourly_usage_journey_starts"] = hourly(entry["start"], entry["starts"])
+    return kw
+
+
+def construct_with(name, cls_name, kw):
+    cls = CLASSES[cls_name]
+    if cls_name in ("Country", "UsagePattern", "UsageJourney"):
+        return cls(name, **kw)
     return cls.from_defaults(name, **kw)
+
+
+def construct(name, entry, objs):
+    """Create one object through its public constructor (``from_defaults`` for omitted parameters)."""
+    kw = kwargs_for(entry, objs)
+    if entry["cls"] == "Country":
+        kw["short_name"] = entry.get("short_name", name.upper())
+    return construct_with(name, entry["cls"], kw)
 
 
 def build(spec, id_seed=None, with_system=True):
